@@ -209,53 +209,67 @@ func rtReport(w *World) {
 		}
 		return ""
 	}
+	inspectTo := func(fn func(ast.Node) bool) {
+		for _, b := range closureBodies(w, p, toProto.Obj, 2) {
+			ast.Inspect(b, fn)
+		}
+	}
+	inspectFrom := func(fn func(ast.Node) bool) {
+		for _, b := range closureBodies(w, p, fromProto.Obj, 2) {
+			ast.Inspect(b, fn)
+		}
+	}
 	// written in ToProto
 	written := map[string]map[string]bool{}
 	for _, m := range msgs {
 		written[m] = map[string]bool{}
 	}
-	ast.Inspect(toProto.Decl.Body, func(x ast.Node) bool {
-		switch s := x.(type) {
-		case *ast.CompositeLit:
-			if tv, ok := info.Types[s]; ok {
-				if m := msgOf(tv.Type); m != "" {
-					for _, el := range s.Elts {
-						if kv, ok := el.(*ast.KeyValueExpr); ok {
-							written[m][render(kv.Key)] = true
+	for _, tb := range closureBodies(w, p, toProto.Obj, 2) {
+		ast.Inspect(tb, func(x ast.Node) bool {
+			switch s := x.(type) {
+			case *ast.CompositeLit:
+				if tv, ok := info.Types[s]; ok {
+					if m := msgOf(tv.Type); m != "" {
+						for _, el := range s.Elts {
+							if kv, ok := el.(*ast.KeyValueExpr); ok {
+								written[m][render(kv.Key)] = true
+							}
+						}
+					}
+				}
+			case *ast.AssignStmt:
+				for _, l := range s.Lhs {
+					if sel, ok := ast.Unparen(l).(*ast.SelectorExpr); ok {
+						if tv, ok := info.Types[sel.X]; ok {
+							if m := msgOf(tv.Type); m != "" {
+								written[m][sel.Sel.Name] = true
+							}
 						}
 					}
 				}
 			}
-		case *ast.AssignStmt:
-			for _, l := range s.Lhs {
-				if sel, ok := ast.Unparen(l).(*ast.SelectorExpr); ok {
-					if tv, ok := info.Types[sel.X]; ok {
-						if m := msgOf(tv.Type); m != "" {
-							written[m][sel.Sel.Name] = true
-						}
-					}
-				}
-			}
-		}
-		return true
-	})
+			return true
+		})
+	}
 	// read in AppendFromProto
 	read := map[string]map[string]bool{}
 	for _, m := range msgs {
 		read[m] = map[string]bool{}
 	}
-	ast.Inspect(fromProto.Decl.Body, func(x ast.Node) bool {
-		if sel, ok := x.(*ast.SelectorExpr); ok {
-			if tv, ok := info.Types[sel.X]; ok {
-				if m := msgOf(tv.Type); m != "" {
-					if s := info.Selections[sel]; s != nil && s.Kind() == types.FieldVal {
-						read[m][sel.Sel.Name] = true
+	for _, fb := range closureBodies(w, p, fromProto.Obj, 2) {
+		ast.Inspect(fb, func(x ast.Node) bool {
+			if sel, ok := x.(*ast.SelectorExpr); ok {
+				if tv, ok := info.Types[sel.X]; ok {
+					if m := msgOf(tv.Type); m != "" {
+						if s := info.Selections[sel]; s != nil && s.Kind() == types.FieldVal {
+							read[m][sel.Sel.Name] = true
+						}
 					}
 				}
 			}
-		}
-		return true
-	})
+			return true
+		})
+	}
 	total := 0
 	for _, m := range msgs {
 		var fs []string
@@ -290,7 +304,7 @@ func rtReport(w *World) {
 		}
 		st := n.Underlying().(*types.Struct)
 		readIn := map[*types.Var]bool{}
-		ast.Inspect(toProto.Decl.Body, func(x ast.Node) bool {
+		inspectTo(func(x ast.Node) bool {
 			if sel, ok := x.(*ast.SelectorExpr); ok {
 				if s := info.Selections[sel]; s != nil {
 					// walk the implicit path so that promoted fields (snippet.Span.Start) count for Span
@@ -313,7 +327,7 @@ func rtReport(w *World) {
 			return true
 		})
 		setIn := map[string]bool{}
-		ast.Inspect(fromProto.Decl.Body, func(x ast.Node) bool {
+		inspectFrom(func(x ast.Node) bool {
 			switch s := x.(type) {
 			case *ast.CompositeLit:
 				if tv, ok := info.Types[s]; ok && types.Identical(tv.Type, n) {
@@ -360,7 +374,7 @@ func rtReport(w *World) {
 	fileT, _ := src.Types.Scope().Lookup("File").(*types.TypeName)
 	if fileT != nil {
 		wantCallee := map[string]string{"Path": "Path", "Text": "Text"}
-		ast.Inspect(toProto.Decl.Body, func(x ast.Node) bool {
+		inspectTo(func(x ast.Node) bool {
 			cl, ok := x.(*ast.CompositeLit)
 			if !ok {
 				return true
@@ -412,6 +426,32 @@ func rtReport(w *World) {
 		})
 	}
 
+	// RT-options: decoding does not depend on the destination report's Options. Options govern how
+	// *new* diagnostics are created (warning suppression, stack-trace capture, stage); a decoded
+	// diagnostic must come back exactly as it was written, whatever report it is appended to.
+	// Who-may-read: no function in the call closure of AppendFromProto reads a field of
+	// report.Options.
+	if optT := w.typ(reportRel, "Options"); optT != nil {
+		ost := optT.Underlying().(*types.Struct)
+		optFields := map[*types.Var]bool{}
+		for i := 0; i < ost.NumFields(); i++ {
+			optFields[ost.Field(i)] = true
+		}
+		nOpt := 0
+		inspectFrom(func(x ast.Node) bool {
+			if sel, ok := x.(*ast.SelectorExpr); ok {
+				if v := selField(info, sel); v != nil && optFields[v] {
+					nOpt++
+					w.violation("decode-option-independent|Options."+v.Name(), sel.Pos(), "Options."+v.Name()+" of the destination report is consulted while decoding (in the call closure of AppendFromProto): with SuppressWarnings decoded warnings and remarks are dropped, with Tracing a stack trace is added to the debug text, so the diagnostics read back are not the ones written")
+				}
+			}
+			return true
+		})
+		if nOpt == 0 {
+			w.ok("decode-option-independent", fromProto.Decl.Pos(), "no function reachable from AppendFromProto reads a field of report.Options")
+		}
+	}
+
 	// RT-span: the decoder's span validation, evaluated over a finite model
 	rtSpanValidation(w, info, fromProto)
 	// RS-switch: all Level constants are accepted
@@ -419,10 +459,15 @@ func rtReport(w *World) {
 }
 
 func rtSpanValidation(w *World, info *types.Info, fromProto *FuncRef) {
+	inspectFrom := func(fn func(ast.Node) bool) {
+		for _, b := range closureBodies(w, fromProto.Pkg, fromProto.Obj, 2) {
+			ast.Inspect(b, fn)
+		}
+	}
 	// the if statement whose body returns an "out-of-bounds span" error
 	var cond ast.Expr
 	var pos token.Pos
-	ast.Inspect(fromProto.Decl.Body, func(x ast.Node) bool {
+	inspectFrom(func(x ast.Node) bool {
 		ifs, ok := x.(*ast.IfStmt)
 		if !ok {
 			return true
@@ -537,12 +582,17 @@ func rtSpanValidation(w *World, info *types.Info, fromProto *FuncRef) {
 }
 
 func rsLevelSwitch(w *World, info *types.Info, fromProto *FuncRef) {
+	inspectFrom := func(fn func(ast.Node) bool) {
+		for _, b := range closureBodies(w, fromProto.Pkg, fromProto.Obj, 2) {
+			ast.Inspect(b, fn)
+		}
+	}
 	levels, lv := levelConsts(w)
 	if levels == nil {
 		return
 	}
 	found := false
-	ast.Inspect(fromProto.Decl.Body, func(x ast.Node) bool {
+	inspectFrom(func(x ast.Node) bool {
 		sw, ok := x.(*ast.SwitchStmt)
 		if !ok || sw.Tag == nil {
 			return true
